@@ -127,6 +127,75 @@ with encode_kvs (kt vt : ty) (kvs : kvals) {struct kvs} : list byte :=
   | KCons k v r => encode kt k ++ encode vt v ++ encode_kvs kt vt r
   end.
 
+(* The encoder of the tree.  marshal() asks whether its argument implements
+   EncodeVaryingDataType before it looks at pointers; a non-nil pointer to a varying data type
+   (Option::Some of an enum) has the value-receiver methods of its element, so it is encoded as
+   the bare enum, WITHOUT the 0x01 option byte (pkg/scale's own tests pin that pointers to varying
+   data types encode as the value: finding C11 some-enum).  [encode] above is the encoder with
+   that repaired; [encode_go] is what Marshal does; they agree outside the guard [some_enum]. *)
+Fixpoint encode_go (t : ty) (v : value) {struct v} : list byte :=
+  match v, t with
+  | VSome v', TOption t' =>
+      match t' with
+      | TEnum _ => encode_go t' v'
+      | _ => Byte.x01 :: encode_go t' v'
+      end
+  | VOk v', TResult a _ => Byte.x00 :: encode_go a v'
+  | VErr v', TResult _ b => Byte.x01 :: encode_go b v'
+  | VEnum i v', TEnum alts =>
+      match alt_lookup alts i with
+      | Some t' => n2b i :: encode_go t' v'
+      | None => []
+      end
+  | VList vs, TArray _ t' => encode_go_all t' vs
+  | VList vs, TSlice t' => go_encode_uint (N.of_nat (vals_len vs)) ++ encode_go_all t' vs
+  | VList vs, TStruct fs => encode_go_fields fs vs
+  | VMap kvs, TMap kt vt => go_encode_uint (N.of_nat (kvals_len kvs)) ++ encode_go_kvs kt vt kvs
+  | _, _ => encode t v
+  end
+with encode_go_all (t : ty) (vs : vals) {struct vs} : list byte :=
+  match vs with
+  | VNil => []
+  | VCons v r => encode_go t v ++ encode_go_all t r
+  end
+with encode_go_fields (fs : tys) (vs : vals) {struct vs} : list byte :=
+  match vs, fs with
+  | VCons v r, TCons _ t fr => encode_go t v ++ encode_go_fields fr r
+  | _, _ => []
+  end
+with encode_go_kvs (kt vt : ty) (kvs : kvals) {struct kvs} : list byte :=
+  match kvs with
+  | KNil => []
+  | KCons k v r => encode_go kt k ++ encode_go vt v ++ encode_go_kvs kt vt r
+  end.
+
+Definition is_enum (t : ty) : bool := match t with TEnum _ => true | _ => false end.
+(* guard of finding C11 some-enum: the value contains Some(x) at an option-of-enum type *)
+Fixpoint some_enum (t : ty) (v : value) {struct v} : bool :=
+  match v, t with
+  | VSome v', TOption t' => is_enum t' || some_enum t' v'
+  | VOk v', TResult a _ => some_enum a v'
+  | VErr v', TResult _ b => some_enum b v'
+  | VEnum i v', TEnum alts => match alt_lookup alts i with Some t' => some_enum t' v' | None => false end
+  | VList vs, TArray _ t' => some_enum_all t' vs
+  | VList vs, TSlice t' => some_enum_all t' vs
+  | VList vs, TStruct fs => some_enum_fields fs vs
+  | VMap kvs, TMap kt vt => some_enum_kvs kt vt kvs
+  | _, _ => false
+  end
+with some_enum_all (t : ty) (vs : vals) {struct vs} : bool :=
+  match vs with VNil => false | VCons v r => some_enum t v || some_enum_all t r end
+with some_enum_fields (fs : tys) (vs : vals) {struct vs} : bool :=
+  match vs, fs with
+  | VCons v r, TCons _ t fr => some_enum t v || some_enum_fields fr r
+  | _, _ => false
+  end
+with some_enum_kvs (kt vt : ty) (kvs : kvals) {struct kvs} : bool :=
+  match kvs with
+  | KNil => false
+  | KCons k v r => some_enum kt k || some_enum vt v || some_enum_kvs kt vt r
+  end.
+
 (* guard of finding C11 uint-5to7: the value contains a Go uint / int (compact) component whose
    64-bit pattern needs 5, 6 or 7 bytes (or a sequence / map of that many elements) — encodeUint emits a big-mode length decodeUint rejects *)
 Definition uint57 (n : N) : bool := (4294967296 <=? n) && (n <? 72057594037927936).
